@@ -440,7 +440,7 @@ pub fn run(ctx: &Ctx, rep: &mut Report) {
             Ok(())
         },
     );
-    let n = ctx.cases(30_000, 1_000_000);
+    let n = ctx.cases(120_000, 2_000_000);
     run_prop(
         ctx,
         rep,
